@@ -24,7 +24,9 @@ func TraverseAST(node ast.Node, env *Pass1) ast.Node {
 		newStatements := make([]ast.Statement, 0, len(n.Statements))
 		for _, stmt := range n.Statements {
 			// 各ステートメントを走査します。TraverseAST は Node を返すようになりました。
+			verifStmt(0, env, stmt)
 			processedStmt := TraverseAST(stmt, env)
+			verifStmt(1, env, stmt)
 			if processedStmt != nil {
 				// 返されたノードが実際に Statement であることを確認します。
 				if statement, ok := processedStmt.(ast.Statement); ok {
